@@ -47,7 +47,7 @@ def matEq (A B : Mat) : Bool := A == B
 def idxList (l : List Int) (bound : Nat) : Option (List Nat) :=
   l.mapM (fun v => if v < 0 || v.toNat ≥ bound then none else some v.toNat)
 
-def noDup (l : List Nat) : Bool := l.eraseDups.length == l.length
+def noDup (l : List Nat) : Bool := decide l.Nodup
 
 /-- C07 contract: a square submatrix inside `M`, no repetitions, `|det| ≥ 2`. -/
 def validViolator (m n : Nat) (M : Mat) (rs cs : List Nat) : Bool :=
